@@ -73,6 +73,31 @@ class YieldingRecorder(AsyncEventProcessor):
         self.shutdown()
 
 
+class SyncMethodsAsyncRecorder(AsyncEventProcessor):
+    """An AsyncEventProcessor subclass that implements ONLY the sync methods (the documented fallback must deliver to them)."""
+
+    def __init__(self) -> None:
+        self.events: list[Any] = []
+        self.shutdowns = 0
+
+    def on_event(self, event: Any) -> None:
+        self.events.append(event)
+
+    def shutdown(self) -> None:
+        self.shutdowns += 1
+        self.events.append("shutdown")
+
+
+def _recorder(record_events: bool, yielding: Any, runner: str) -> Any:
+    if not record_events:
+        return None
+    if runner == "async" and yielding == "syncmethods":
+        return SyncMethodsAsyncRecorder()
+    if runner == "async" and yielding:
+        return YieldingRecorder()
+    return Recorder()
+
+
 def canon_event(ev: Any) -> dict:
     if ev == "shutdown":
         return {"shutdown": 1}
@@ -168,6 +193,8 @@ def run_case(
     if sel is not None:
         # callers also pass a tuple (graph.selected is one): same meaning as the list
         kwargs["select"] = tuple(sel) if cfg.get("selectAsTuple") and isinstance(sel, list) else sel
+        if cfg.get("selectAsSet") and isinstance(sel, list) and len(sel) == 1:
+            kwargs["select"] = set(sel)          # (one name only: a set has no order to compare results by)
     if "onMissing" in cfg:
         kwargs["on_missing"] = cfg["onMissing"]
     if "errMode" in cfg:
@@ -176,7 +203,7 @@ def run_case(
         kwargs["max_iterations"] = cfg["maxIter"]
     if entrypoint is not None:
         kwargs["entrypoint"] = entrypoint
-    rec = (YieldingRecorder() if yielding_recorder and runner == "async" else Recorder()) if record_events else None
+    rec = _recorder(record_events, yielding_recorder, runner)
     procs = list(processors or [])
     if rec is not None:
         procs.append(rec)
@@ -332,7 +359,7 @@ def map_case(
         kwargs["select"] = cfg["select"]
     if "onMissing" in cfg:
         kwargs["on_missing"] = cfg["onMissing"]
-    rec = (YieldingRecorder() if yielding_recorder and runner == "async" else Recorder()) if record_events else None
+    rec = _recorder(record_events, yielding_recorder, runner)
     if rec is not None:
         kwargs["event_processors"] = [rec]
     obs: dict[str, Any] = {"status": "ok"}
